@@ -163,14 +163,15 @@ def replay_quorum(ctx, r, d):
 
 # ------------------------------------------------------------------------------ (V) trace validation
 
-def sim_eval(d, sched_lines, tag="shr"):
+def sim_eval(d, sched_lines, tag="shr", mode="trace"):
     """Execute an explicit schedule (N line + EV lines) on the real RawNodes and validate the
-    resulting trace.  Returns (verdict line or None, trace text)."""
+    resulting trace (mode trace: against the model; mode monitor: safety predicates on the
+    observed states only).  Returns (verdict line or None, trace text)."""
     (d / (tag + "_sched.txt")).write_text("\n".join(sched_lines) + "\n")
     rc1, o1 = lib.sh("%s simfile %s_sched.txt %s_trace.txt" % (lib.BUILD / HARNESS, tag, tag), cwd=d, timeout=120)
     if rc1 != 0:
         return None, "simfile failed: " + o1[-1500:]
-    rc2, o2 = lib.sh("%s trace %s_trace.txt %s_verdict.txt" % (lib.BUILD / RUNNER, tag, tag), cwd=d, timeout=300)
+    rc2, o2 = lib.sh("%s %s %s_trace.txt %s_verdict.txt" % (lib.BUILD / RUNNER, mode, tag, tag), cwd=d, timeout=300)
     if rc2 != 0:
         return None, "raftrun trace failed: " + o2[-1500:]
     v = (d / (tag + "_verdict.txt")).read_text().splitlines()
@@ -191,11 +192,13 @@ def fail_reason(verdict):
     return "?"
 
 
-def sim_shrink(d, header, evs, budget=2500):
+def sim_shrink(d, header, evs, budget=2500, mode="trace"):
     """ddmin over the EV lines: keep any sub-schedule on which validation still fails."""
+    bad = " FAIL " if mode == "trace" else " UNSAFE "
+
     def failing(cand):
-        v, _ = sim_eval(d, [header] + cand)
-        return v is not None and " FAIL " in v, v
+        v, _ = sim_eval(d, [header] + cand, mode=mode)
+        return v is not None and bad in v, v
     ok, v = failing(evs)
     if not ok:
         return evs, v
@@ -238,6 +241,75 @@ def schedule_of(trace_path, k):
             elif line.startswith("EV "):
                 evs.append(line.strip())
     return header, evs
+
+
+NOTE = ("events: C campaign, P propose, T tick, R restart, K compact, SR snapshot-failure report, D/DD deliver (dup), "
+        "FP forwarded proposal, X* = crash before persisting; messages/states are in the model's numbering "
+        "(index = real index - 1); replay with ./check C15 --replay <this file>")
+
+
+def deviation(ctx, d, b, k, line):
+    """Trace validation failed on schedule k of chunk b: the implementation took a step the model
+    does not allow.  Look for an actual violation of the property (safety predicates on the
+    observed states: this chunk first, then fresh schedules); report it if found, else report the
+    deviation as a broken tie."""
+    def unsafe_in(dirpath):
+        rc, out = lib.sh("%s monitor traces.txt monitor.txt" % (lib.BUILD / RUNNER), cwd=dirpath, timeout=6000)
+        if rc != 0:
+            return None
+        for l in (dirpath / "monitor.txt").read_text().splitlines():
+            t = l.split()
+            if len(t) >= 3 and t[2] == "UNSAFE":
+                return t[1], l
+        return None
+    found = unsafe_in(b)
+    where = b
+    extra = 3 if ctx.tier == "quick" else 20
+    j = 0
+    while found is None and j < extra:
+        e = d / ("search%d" % j)
+        e.mkdir(exist_ok=True)
+        rc, out = lib.sh("%s sim . %d %d %d %d" % (lib.BUILD / HARNESS, ctx.seed, 5000000 + 2000 * j, 2000, 400), cwd=e, timeout=3000)
+        if rc != 0:
+            break
+        found = unsafe_in(e)
+        where = e
+        if found is None:
+            try:
+                (e / "traces.txt").unlink()
+            except OSError:
+                pass
+        j += 1
+    if found is not None:
+        k2, l2 = found
+        header, evs = schedule_of(where / "traces.txt", k2)
+        fe = fail_event(l2)
+        if fe:
+            evs = evs[:fe]
+        shr, v = sim_shrink(where, header, evs, mode="monitor")
+        v2, trace = sim_eval(where, [header] + shr, tag="final", mode="monitor")
+        if not v2 or " UNSAFE " not in v2:
+            v2 = l2 + "   [NOT reproduced by the explicit replay of its schedule: original verdict shown]"
+        return dict(kind="safety-violation", found_input=True, schedule=int(k2), seed=ctx.seed,
+                    reason=fail_reason(v2 or l2), verdict=(v2 or l2), header=header, events=shr,
+                    trace_tail=trace.splitlines()[-14:],
+                    first_deviation_from_model=line,
+                    theorem="C15_election_safety / C15_log_matching / C15_state_machine_safety / C15_leader_completeness / C15_hardstate_monotone / C15_committed_never_removed evaluated on the observed states of the real RawNodes",
+                    note=NOTE)
+    header, evs = schedule_of(b / "traces.txt", k)
+    fe = fail_event(line)
+    if fe:
+        evs = evs[:fe]
+    shr, v = sim_shrink(b, header, evs)
+    v2, trace = sim_eval(b, [header] + shr, tag="final")
+    if not v2 or " FAIL " not in v2:
+        v2 = line + "   [NOT reproduced by the explicit replay of its schedule: original verdict shown]"
+    return dict(kind="trace-validation", found_input=False, schedule=int(k), seed=ctx.seed,
+                reason=fail_reason(v2 or line), verdict=(v2 or line),
+                original_verdict=line, header=header, events=shr,
+                trace_tail=trace.splitlines()[-12:],
+                theorem="C15_check_step_sound: an accepted step is a step of the model's transition relation; on this schedule the implementation takes a step that is NOT one.  No violation of the safety predicates themselves was found on the observed states (this chunk + %d fresh schedules)" % (2000 * extra),
+                note=NOTE)
 
 
 def sim_part(ctx, d):
@@ -290,19 +362,7 @@ def sim_part(ctx, d):
                 if len(samples) < 3 and int(kv["elections"]) >= 2 and int(kv["truncs"]) >= 1:
                     samples.append("schedule %s: %s" % (tok[1], " ".join(tok[3:-1])))
             elif viol is None:
-                k = tok[1]
-                header, evs = schedule_of(b / "traces.txt", k)
-                fe = fail_event(line)
-                if fe:
-                    evs = evs[:fe]
-                shr, v = sim_shrink(b, header, evs)
-                v2, trace = sim_eval(b, [header] + shr, tag="final")
-                viol = dict(kind="trace-validation", schedule=int(k), seed=ctx.seed,
-                            reason=fail_reason(v2 or line), verdict=(v2 or line),
-                            original_verdict=line, header=header, events=shr,
-                            trace_tail=trace.splitlines()[-12:],
-                            theorem="C15_check_step_sound: an accepted step is a step of the model's transition relation; this step is NOT one (or the implementation panicked / broke a safety predicate)",
-                            note="events: C campaign, P propose, T tick, R restart, D/DD deliver (dup), FP forwarded proposal, X* = crash before persisting; messages/states are in the model's numbering (index = real index - 1); replay with ./check C15 --replay <this file>")
+                viol = deviation(ctx, d, b, tok[1], line)
         if viol is None:
             try:
                 (b / "traces.txt").unlink()
@@ -317,13 +377,14 @@ def sim_part(ctx, d):
 
 
 def replay_sim(ctx, r, d):
-    v, trace = sim_eval(d, [r["header"]] + r["events"], tag="replay")
+    mode = "monitor" if r.get("kind") == "safety-violation" else "trace"
+    v, trace = sim_eval(d, [r["header"]] + r["events"], tag="replay", mode=mode)
     if v is None:
         print("replay: could not run:", trace)
         return 1
     print("\n".join(trace.splitlines()[-14:]))
-    print("verdict:", v)
-    return 1 if " FAIL " in v else 0
+    print("verdict (%s):" % ("safety predicates on observed states" if mode == "monitor" else "trace validation against the model"), v)
+    return 1 if (" FAIL " in v or " UNSAFE " in v) else 0
 
 
 # ------------------------------------------------------------------------------ driver
@@ -344,7 +405,7 @@ def run(ctx):
             return 1
         if r.get("kind", "").startswith("impl-vs-model quorum"):
             return replay_quorum(ctx, r, d)
-        if r.get("kind") == "trace-validation":
+        if r.get("kind") in ("trace-validation", "safety-violation"):
             return replay_sim(ctx, r, d)
         print("replay: nothing to re-run for kind=%r: %s" % (r.get("kind"), r.get("what", "")[:500]))
         return 1
@@ -359,7 +420,7 @@ def run(ctx):
             broken = broken or sb
     rc = 0
     if viol:
-        lib.violation(PID, viol)
+        lib.violation(PID, viol, found_input=viol.get("found_input", True))
         ctx.violations += 1
         rc = 1
     elif broken:
